@@ -556,6 +556,19 @@ def observable(o):
                 out["monomers[%d].get_energy" % i] = numpy.array([m.get_energy(n) for n in range(m.nel)], dtype=float)
             except Exception:
                 pass
+        if hasattr(o, "get_resonance_coupling"):
+            try:
+                out["get_resonance_coupling"] = numpy.array([[o.get_resonance_coupling(i, j) for j in range(len(mons))]
+                                                             for i in range(len(mons))], dtype=float)
+            except Exception:
+                pass
+    # the conversion every units-managed accessor of the object goes through (of the object and of the objects it holds)
+    for nm, x in [("", o)] + [("monomers[%d]." % i, m) for i, m in enumerate(mons or [])]:
+        if hasattr(x, "convert_energy_2_current_u"):
+            try:
+                out[nm + "convert_energy_2_current_u(1)"] = numpy.array([x.convert_energy_2_current_u(1.0)], dtype=float)
+            except Exception:
+                pass
     if hasattr(o, "get_reorganization_energy"):
         try:
             out["get_reorganization_energy"] = numpy.array([o.get_reorganization_energy()], dtype=float)
